@@ -405,10 +405,23 @@ func (g *vGen) next(step int, st map[string]interface{}) *vEntry {
 					free = false
 				}
 			}
+			// scope of C14: SVSNICK renames a CLIENT session onto a free nickname. (Renaming one of the
+			// services' own pseudo-clients and re-introducing the old spelling overwrites the session
+			// keyed by the hash of that spelling - services never do that; see DESIGN.md §11.4.)
+			target := "nosuchnick"
+			var cs []string
+			for _, s := range v.sess {
+				if s["rid"].(int) == 0 && s["nick"].(string) != "" && !s["del"].(bool) && !s["sv"].(bool) {
+					cs = append(cs, s["nick"].(string))
+				}
+			}
+			if len(cs) > 0 && r.Intn(8) != 0 {
+				target = variant(r, cs[r.Intn(len(cs))])
+			}
 			if free {
-				e.Data = fmt.Sprintf(":%s SVSNICK %s %s %d", pfx, clientNick(), nn, g.ts)
+				e.Data = fmt.Sprintf(":%s SVSNICK %s %s %d", pfx, target, nn, g.ts)
 			} else {
-				e.Data = fmt.Sprintf(":%s SVSNICK %s %s %d", pfx, clientNick(), "1bad", g.ts)
+				e.Data = fmt.Sprintf(":%s SVSNICK %s %s %d", pfx, target, "1bad", g.ts)
 			}
 		case 17, 18:
 			e.Data = fmt.Sprintf(":%s SVSJOIN %s %s", pfx, clientNick(), anyChan())
